@@ -462,6 +462,7 @@ class Parser(IdlVisitor):
         extern_path = self.visit(ctx.filepath())
         if extern_path:
             try:
+                self.file_reader.read_external_type(extern_path.path)  # lists the file in the processed-files report
                 self.resolver.load_external(extern_path.path)
             except InputParsingException as e:
                 self.errors.append(e)
